@@ -608,6 +608,11 @@ func (d *dlgWorld) nextInDialog(m *dlgModel) {
 	d.w.K.After(time.Duration(sub.DelayUs)*time.Microsecond, "dlg-next", func() {
 		sender, data, id := d.buildInDialog(m, idx)
 		d.sendRequest(sender, op.Listen, data, id)
+		if sub.S["foreign"] != "" {
+			// nobody answers a request the proxy drops: the script goes on
+			d.w.stat("probe:in-dialog-request-with-foreign-request-uri")
+			d.w.K.After(2*time.Millisecond, "dlg-after-foreign", func() { d.nextInDialog(m) })
+		}
 	})
 }
 
@@ -632,6 +637,9 @@ func (d *dlgWorld) buildInDialog(m *dlgModel, idx int) (sender string, data []by
 	}
 	if o.method == "NOTIFY" {
 		o.extra = append(o.extra, sipwire.Header{Name: "Event", Value: "presence"})
+	}
+	if f := sub.S["foreign"]; f != "" {
+		ids.ruri = f // a request of the dialog that is not addressed to the service (and carries no Route)
 	}
 	return sender, ids.request(o), id
 }
@@ -684,6 +692,9 @@ func execSticky(t *testing.T, p *Plan) *Result {
 	})
 	finish(w, p, r)
 	r.Judged = w.Stats["judged:C04"]
+	if p.Prop == "C03" {
+		r.Judged = w.Stats["judged:C03"]
+	}
 	nb := 0
 	for _, l := range p.Cfg.Listens {
 		nb += len(l.Backends)
@@ -840,6 +851,9 @@ func (d *dlgWorld) installStickyRules(prop string) {
 			sub := &mod.op.Sub[idx]
 			if _, isBackend := d.backends[party]; !isBackend {
 				return
+			}
+			if sub.S["foreign"] != "" {
+				return // judged from the emissions at the end (C03)
 			}
 			w.Stats["judged:"+prop]++
 			if sub.S["after"] == "term" || mod.terminated {
@@ -1070,6 +1084,16 @@ func (d *dlgWorld) judgeEmissionsC04(prop string) {
 		for idx := range mod.op.Sub {
 			sub := &mod.op.Sub[idx]
 			id := fmt.Sprintf("%s.s%d", mod.id, idx)
+			if sub.S["foreign"] != "" {
+				if _, sent := d.sentAt[id]; sent {
+					w.Stats["judged:C03"]++
+					if ems := byID[id]; len(ems) > 0 {
+						w.Viol = append(w.Viol, Violation{Prop: "C03", Rule: "emitted-but-should-drop", Msg: id, Sig: "class=drop;in-dialog",
+							Detail: fmt.Sprintf("request %s of dialog %s (pinned to %s) has the foreign Request-URI %s, no Route and no static route for its To host: it matches none of the three rules, yet it was sent to %s\n%s", id, mod.id, mod.pinned, sub.S["foreign"], ems[0].E.Dst, clip(string(ems[0].E.Data), 400))})
+					}
+				}
+				continue
+			}
 			if sub.S["after"] == "term" {
 				continue
 			}
